@@ -83,6 +83,9 @@ pub fn spawn_omniscient(
             let names = |target: &[u8]| -> Vec<(Id, SocketAddr)> {
                 let mut v: Vec<(Id, SocketAddr)> = closest(&world, target, 8, Some(i)).into_iter().map(|j| world[j]).collect();
                 v.extend(extra.iter().copied());
+                // keep the reply within a 1500-byte datagram (26 / 38 bytes per node)
+                let cap = if addr.is_ipv6() { 34 } else { 50 };
+                v.truncate(cap);
                 v
             };
             let r = match q {
